@@ -28,10 +28,10 @@ import (
 )
 
 type Case struct {
-	Mode       string            `json:"mode"` // "pipelines" | "readers"
+	Mode string `json:"mode"` // "pipelines" | "readers"
 	// Erroneous: (readers) the set holds unknown groupings and types, so that entries carry errors of their own
 	// and of their descendants; it is read although processing reports errors.
-	Erroneous bool `json:"erroneous,omitempty"`
+	Erroneous  bool              `json:"erroneous,omitempty"`
 	Sets       [][]ymodel.Source `json:"sets"` // pipelines: distinct sets; readers: Sets[0]
 	Goroutines int               `json:"goroutines"`
 	Rounds     int               `json:"rounds"`
